@@ -321,6 +321,17 @@ def _mshape(ty):
     raise Unsupported('MListOf element type %r' % (ty,))
 
 
+class HavocBy(Ty):
+    """In `M.loop(... modifies={'source': HavocBy(fn)})`: the object bound to the name is changed in place by
+    the loop body; at the loop head `fn(interp, obj)` makes it arbitrary (e.g. by an environment step)."""
+
+    def __init__(self, fn):
+        self.fn = fn
+
+    def make(self, interp, name):
+        raise Unsupported('HavocBy is only meaningful in loop frames')
+
+
 class IterOf(Ty):
     """An iterator over a sequence of symbolic length (e.g. the lines of a file), positioned at its start.
     In clauses: `it.xs` is the underlying sequence, `it.pos` the number of items consumed so far."""
